@@ -40,7 +40,7 @@ def job_derive(job):
     def emit(tier):
         if prop == "C06":
             wins = [(f, t) for f in range(lo, hi) for t in range(f, hi)]
-            nwin = len(wins) if tier == "thorough" else 5
+            nwin = min(len(wins), 80) if tier == "thorough" else 5     # every window on the bounded grids, 80 sampled on longer ones
             for (f, t) in (wins if nwin >= len(wins) else rng.sample(wins, nwin)):
                 lines.append(derive.derive_line(g, L, known2, grid, "time_slice",
                                                 {"f": f, "g": t, "gomit": False, "form": rng.choice(["method", "function"])},
